@@ -288,6 +288,35 @@ def check_parsed(ctx, case):
                 _judge(ctx, f, T, case, 'parsed')
                 f = 3 * f             # the product is a copy: it keeps the name
     _judge(ctx, f, T, case, 'parsed')
+    if name is None:
+        _count_kind_twins(ctx, f, T)
+
+
+def _count_kind_twins(ctx, f, T):
+    """Round 8: the printed form depends on the VALUE of a count (six significant digits), not on the kind of
+    number that holds it: the same structure with every count as a decimal.Decimal / fractions.Fraction / numpy
+    scalar of exactly the same value must print the same text."""
+    import decimal
+    import fractions
+    import numpy as np
+    import periodictable as pt
+
+    def as_kind(structure, kind):
+        return tuple((kind(c), frag if not isinstance(frag, tuple) else as_kind(frag, kind)) for c, frag in structure)
+
+    want = str(f)
+    for label, kind in (('decimal.Decimal', decimal.Decimal), ('fractions.Fraction', fractions.Fraction),
+                        ('numpy.float64', np.float64)):
+        ctx.evaluated(what='count-kind-twin')
+        try:
+            got = str(pt.formula(as_kind(f.structure, kind), table=T))
+        except Exception as exc:  # noqa
+            ctx.violation('structure of %r with %s counts cannot be built or printed: %s: %s'
+                          % (want[:200], label, type(exc).__name__, exc), kind='count-kind', kinds=['count-kind'])
+            continue
+        if got != want:
+            ctx.violation('structure of %r with %s counts of the same values prints %r' % (want[:200], label, got[:300]),
+                          kind='count-kind', kinds=['count-kind'])
 
 
 def check_program(ctx, case):
